@@ -94,6 +94,28 @@ impl Expr
 }
 
 
+impl Expr
+{
+	/// Returns the same expression with a different overall span
+	pub fn with_span(self, span: diagn::Span) -> Expr
+	{
+		match self
+		{
+			Expr::Literal   (_, a)          => Expr::Literal   (span, a),
+			Expr::Variable  (_, a, b)       => Expr::Variable  (span, a, b),
+			Expr::UnaryOp   (_, a, b, c)    => Expr::UnaryOp   (span, a, b, c),
+			Expr::BinaryOp  (_, a, b, c, d) => Expr::BinaryOp  (span, a, b, c, d),
+			Expr::TernaryOp (_, a, b, c)    => Expr::TernaryOp (span, a, b, c),
+			Expr::Slice     (_, a, b, c, d) => Expr::Slice     (span, a, b, c, d),
+			Expr::SliceShort(_, a, b, c)    => Expr::SliceShort(span, a, b, c),
+			Expr::Block     (_, a)          => Expr::Block     (span, a),
+			Expr::Call      (_, a, b)       => Expr::Call      (span, a, b),
+			Expr::Asm       (_, a)          => Expr::Asm       (span, a),
+		}
+	}
+}
+
+
 impl Value
 {
 	pub fn is_unknown(&self) -> bool
